@@ -50,6 +50,9 @@ var Panel = []map[string]string{
 	{"a": "2", "b": "x", "c": "z"},
 	{"a": "~1"},
 	{"a=": "1"},
+	// values with a line feed: `.` does not match it (no (?s) flag), so x.* / .*z / .+ do not hold for these
+	{"a": "1", "b": "x\ny"},
+	{"a": "\n", "c": "\nz"},
 }
 
 func PanelTok(r *rand.Rand) string { return "L" + LsStr(hx.Pick(r, Panel)) }
